@@ -300,6 +300,15 @@ func runC04(c *eng.Ctx) {
 	ruleLeaderServesOwnEpoch(c)
 	c.Floor(2)
 
+	// ---- R04.5 / R04.6 extensions from repaired defects
+	c.Rule("R04.5", "K3")
+	ruleLeaderForgetsOldProgress(c)
+	c.Rule("R04.6", "K1")
+	ruleReplicationShipsAtLeastOne(c)
+
+	c.Rule("R02.4", "K1")
+	ruleOffsetRequestFenced(c)
+
 }
 
 // indexOfLoad returns the IndexAddr whose element v loads.
